@@ -264,6 +264,45 @@ def c19_life(args, spec, signame):
             "life": {"signal": signame, "samples": samples, "drift_values_seen": {str(k): v for k, v in drifts.items()}, "statuses_seen": {str(k): v for k, v in statuses.items()}, "chronyd_requests": chronyd.requests, "alive_at_end": alive}}
 
 
+def c02stop(binary, out, signames):
+    """The hooked daemon (single-writer monitor on) with chronyd answering; a signal after 1.6 s; what
+    the process says on stderr and how it ends."""
+    res = []
+    for signame in signames:
+        try:
+            os.unlink(SHM)
+        except OSError:
+            pass
+        chronyd = FakeChronyd("answer")
+        chronyd.start()
+        env = dict(os.environ, CLOCKBOUND_VERIF_SINGLE_WRITER="report")
+        env.pop("CLOCKBOUND_VERIF_FAILPOINT", None)
+        if ":" in signame:
+            # "<SIG>:<site>:<hit>:<action>": a failpoint as well (a worker dies, the daemon stops by itself)
+            signame, fp = signame.split(":", 1)
+            env["CLOCKBOUND_VERIF_FAILPOINT"] = fp
+        p = subprocess.Popen([binary], stdout=subprocess.DEVNULL, stderr=subprocess.PIPE, env=env)
+        t0 = time.monotonic()
+        sent = False
+        while time.monotonic() - t0 < 4.5:
+            if not sent and time.monotonic() - t0 >= 1.6:
+                sent = True
+                if signame and p.poll() is None:
+                    p.send_signal(getattr(signal, signame))
+            if p.poll() is not None and sent:
+                break
+            time.sleep(0.02)
+        rc = p.poll()
+        kill(p)
+        chronyd.stop = True
+        chronyd.set_mode("absent")
+        err = p.stderr.read().decode(errors="replace")
+        seg = read_segment()
+        res.append({"signal": signame, "failpoint": env.get("CLOCKBOUND_VERIF_FAILPOINT"), "exit_code": rc, "single_writer_reports": [l for l in err.splitlines() if "VERIF-SINGLE-WRITER" in l][:3],
+                    "published": seg is not None, "chronyd_requests": chronyd.requests})
+    json.dump(res, open(out, "w"))
+
+
 def run_plan(binary, plan):
     """plan: {site, hit, action, chronyd, env?, args?, natural?}. Returns an observation dict."""
     for f in (SHM,):
@@ -289,6 +328,8 @@ def run_plan(binary, plan):
     else:
         env.pop("CLOCKBOUND_VERIF_FAILPOINT", None)
     natural = plan.get("natural")
+    if natural and natural.startswith("worker-stalls"):
+        natural = "worker-stalls"
     if natural == "shm-is-directory":
         os.makedirs(SHM, exist_ok=True)
     phc_file = None
@@ -300,6 +341,18 @@ def run_plan(binary, plan):
         with open(phc_file, "w") as f:
             f.write("not-a-number\n" if natural == "phc-garbage-at-start" else "1234\n")
         args += ["--phc-ref-id", "PHC0", "--phc-interface", "eth0"]
+    lock_holder = None
+    if plan.get("segment_lock"):
+        # another process holds a lock on the segment file for the whole run
+        os.makedirs(os.path.dirname(SHM), exist_ok=True)
+        if plan.get("segment_before") == "valid":
+            seg = struct.pack("=IIIHH", 0x414D5A4E, 0x43420200, 72, 1, 4) + struct.pack("=qqqqqIIiI", 10, 0, 1010, 0, 5, 1000, 0, 0, 0)
+            with open(SHM, "wb") as f:
+                f.write(seg)
+        code = ("import fcntl,os,sys,time\nfd=os.open(%r,os.O_RDWR|os.O_CREAT,0o644)\n" % SHM) + \
+               ("fcntl.flock(fd,fcntl.LOCK_EX)\n" if plan["segment_lock"] == "flock" else "fcntl.lockf(fd,fcntl.LOCK_EX)\n") + "print('locked',flush=True)\ntime.sleep(600)\n"
+        lock_holder = subprocess.Popen([sys.executable, "-c", code], stdout=subprocess.PIPE)
+        lock_holder.stdout.readline()
     t_start = time.monotonic_ns()
     p = subprocess.Popen(args, stdout=subprocess.DEVNULL, stderr=subprocess.PIPE, env=env)
     fired_ns = None
@@ -349,6 +402,8 @@ def run_plan(binary, plan):
             break
     alive = p.poll() is None
     kill(p)
+    if lock_holder:
+        kill(lock_holder)
     if chronyd:
         chronyd.stop = True
         chronyd.set_mode("absent")
@@ -406,6 +461,8 @@ if __name__ == "__main__":
     mode = sys.argv[1]
     if mode == "c19":
         c19(sys.argv[2], sys.argv[3], sys.argv[4:])
+    elif mode == "c02stop":
+        c02stop(sys.argv[2], sys.argv[3], sys.argv[4:])
     elif mode == "c15":
         c15(sys.argv[2], sys.argv[3], sys.argv[4])
     elif mode == "timeline":
